@@ -47,3 +47,54 @@ Lemma ex_set : exists s o, run (ex_cfg true) (init (ex_cfg true))
   txs o = [(1, [10; 0]); (1, [11; 0]); (1, [12; 0]); (2, [11; 0; 255; 255])] /\
   get_value (ex_cfg true) s 1 = Some (VInt 65535) /\ s_updated s = true /\ s_lock s = false.
 Proof. eexists. eexists. split; vm_compute; [reflexivity|repeat split; reflexivity]. Qed.
+
+(* ---- a two-class priority queue in place of the FIFO request queue (what a "writes first" updater would do):
+        the updater takes the first write-channel request if there is one, else the head *)
+Fixpoint take_write (q : list req) : option (req * list req) :=
+  match q with
+  | [] => None
+  | r :: q' => if fst (r_pk r) =? 2 then Some (r, q')
+               else match take_write q' with Some (w, rest) => Some (w, r :: rest) | None => None end
+  end.
+
+Definition step_prio (c : config) (s : state) (ev : event) : option (state * list obs) :=
+  match ev with
+  | EvUGet =>
+    match s_hand s, s_queue s with
+    | None, r :: q =>
+      match take_write (r :: q) with
+      | Some (w, rest) => Some (set_hand (set_queue s rest) (Some w), [])
+      | None => Some (set_hand (set_queue s q) (Some r), [])
+      end
+    | _, _ => None
+    end
+  | _ => step c s ev
+  end.
+
+Fixpoint run_prio (c : config) (s : state) (evs : list event) : option (state * list obs) :=
+  match evs with
+  | [] => Some (s, [])
+  | e :: r =>
+    match step_prio c s e with
+    | None => None
+    | Some (s1, o1) => match run_prio c s1 r with None => None | Some (s2, o2) => Some (s2, o1 ++ o2) end
+    end
+  end.
+
+Definition ex_fetch : list event :=
+  [EvRead 0; EvRead 1; EvRead 2; EvUGet; EvUSend; EvDeliver; EvUGet; EvUSend; EvDeliver; EvUGet; EvUSend; EvDeliver].
+(* set a=1 on the wire with a slow reply; read b, read c, set c=5, persistent_store c, set c=6 issued behind it *)
+Definition ex_backlog : list event :=
+  ex_fetch ++ [EvSet 0 (VInt 1); EvUGet; EvUSend; EvRead 1; EvRead 2; EvSet 2 (VInt 5); EvMisc 3 2 None; EvSet 2 (VInt 6);
+               EvDeliver; EvUGet; EvUSend; EvDeliver; EvUGet; EvUSend; EvDeliver; EvUGet; EvUSend; EvDeliver;
+               EvUGet; EvUSend; EvDeliver; EvUGet; EvUSend; EvDeliver].
+
+Lemma ex_prio_reorders : exists s o, run_prio (ex_cfg true) (init (ex_cfg true)) ex_backlog = Some (s, o) /\
+  skipn 3 (enqs o) = [(2, [10; 0; 1; 0]); (1, [11; 0]); (1, [12; 0]); (2, [12; 0; 5; 0]); (3, [3; 12; 0]); (2, [12; 0; 6; 0])] /\
+  skipn 3 (txs o)  = [(2, [10; 0; 1; 0]); (2, [12; 0; 5; 0]); (2, [12; 0; 6; 0]); (1, [11; 0]); (1, [12; 0]); (3, [3; 12; 0])] /\
+  aget 12 (d_stored s) = [6; 0].
+Proof. eexists. eexists. split; vm_compute; [reflexivity|repeat split; reflexivity]. Qed.
+
+Lemma ex_fifo_keeps_order : exists s o, run (ex_cfg true) (init (ex_cfg true)) ex_backlog = Some (s, o) /\
+  txs o = enqs o /\ aget 12 (d_stored s) = [5; 0].
+Proof. eexists. eexists. split; vm_compute; [reflexivity|split; reflexivity]. Qed.
